@@ -3,6 +3,7 @@ pub mod chk;
 pub mod civil;
 pub mod conv;
 pub mod engine;
+pub mod fuzzable;
 pub mod gen;
 pub mod matrix;
 pub mod model;
@@ -11,4 +12,4 @@ pub mod rollcheck;
 pub mod sut;
 pub mod sut_agg;
 pub mod sut_map;
-pub fn hello_fuzz(d: &[u8]) -> usize { d.len() }
+
